@@ -9,6 +9,7 @@ use zbus::{zvariant, Connection};
 use super::common::*;
 use crate::{
     corpus::{new_log, SimAProxy, SimAProxyBlocking, A},
+    corpus_gen,
     framework::{Scenario, Tier, Verdict},
     kernel::{SchedCfg, World},
     net::{sim_socket_pair, LinkCfg, SockCfg},
@@ -49,6 +50,21 @@ struct P {
     cached: bool,
     signals: Vec<(u32, String)>,
     link: LinkCfg,
+    /// calls through the generated proxies: (interface, method, value seed)
+    #[serde(default)]
+    gen_async: Vec<(usize, usize, u64)>,
+    #[serde(default)]
+    gen_blocking: Vec<(usize, usize, u64)>,
+    /// property exercises through the generated proxies: (interface, property, value seed, cached proxy);
+    /// the async and the blocking list never name the same property (their writes would race)
+    #[serde(default)]
+    gen_props_async: Vec<(usize, usize, u64, bool)>,
+    #[serde(default)]
+    gen_props_blocking: Vec<(usize, usize, u64)>,
+    /// generated signals: (interface, signal, value seed, subscriber: 0 = async stream, 1 = blocking iterator);
+    /// each (interface, signal) at most once; emitted in this order after the hand-written signals
+    #[serde(default)]
+    gen_signals: Vec<(usize, usize, u64, u8)>,
 }
 
 /// Expected (log args, result rendering) of a stateless method.
@@ -132,7 +148,7 @@ impl Scenario for C33Scn {
         "C33"
     }
     fn rule(&self) -> &'static str {
-        "over a pair of real connections the corpus interface (11 methods with integers, strings, tuples, arrays, dicts, variants, nested structs, fallible and custom-error returns; properties of every mode; one signal) is driven through its macro-generated proxies: an async proxy on a task (0..8 operations incl. property reads/writes, with or without the property cache) and a blocking proxy on a real thread parked and released by the simulator (0..5 method calls), both with seeded argument values; the server emits 0..3 signals once both are subscribed; oracle: every result equals a typed model of the handlers, the handler log equals the calls made (argument values included), property reads follow the writes, both signal streams yield exactly the emitted arguments in order; non-trivial = the async and the blocking client both made calls, or a property was written and read back"
+        "over a pair of real connections the corpus interface (11 methods with integers, strings, tuples, arrays, dicts, variants, nested structs, fallible and custom-error returns; properties of every mode; one signal) is driven through its macro-generated proxies: an async proxy on a task (0..8 operations incl. property reads/writes, with or without the property cache) and a blocking proxy on a real thread parked and released by the simulator (0..5 method calls), both with seeded argument values; in addition 0..4 async and 0..3 blocking calls go through the macro-generated proxies of the 16 generated interfaces (signatures drawn from the type grammar; echo handlers; values seeded) and each result must equal what was sent (or the error the handler was asked for), each call reaching exactly its handler once; the server emits 0..3 signals once both are subscribed; oracle: every result equals a typed model of the handlers, the handler log equals the calls made (argument values included), property reads follow the writes, both signal streams yield exactly the emitted arguments in order; non-trivial = the async and the blocking client both made calls, or a property was written and read back"
     }
     fn runs(&self, tier: Tier) -> u64 {
         match tier {
@@ -147,7 +163,7 @@ impl Scenario for C33Scn {
         vec!["OS sockets", "executor (seeded scheduler)", "thread scheduling for the blocking client (baton)", "clock"]
     }
     fn assumptions(&self) -> Vec<&'static str> {
-        vec!["one hand-written interface/proxy pair, not a generated family: this check exercises schedules, splits and the blocking wrapper rather than the space of interface definitions", "with the property cache on, a read follows a write only after 1 ms of simulated time, and the property that does not emit changes is not written"]
+        vec!["the generated family of interface/proxy pairs is fixed per build (macro expansion happens at compile time; tools/gen_corpus.py --seed N regenerates it), and generated interfaces have methods only: properties and signals are covered by the hand-written pair", "with the property cache on, a read follows a write only after 1 ms of simulated time, and the property that does not emit changes is not written"]
     }
 
     fn generate(&self, rng: &mut Rng, _idx: u64, _tier: Tier) -> (SchedCfg, Value) {
@@ -156,7 +172,36 @@ impl Scenario for C33Scn {
         let blocking_ops = (0..rng.below(6)).map(|_| gen_op(rng, true, false)).collect();
         let signals = (0..rng.below(4)).map(|i| (rng.below(1000) as u32, format!("tick-{i}"))).collect();
         let sched = SchedCfg::generate(rng, &["async-client", "socket reader", "method dispatcher"]);
-        (sched, j(&P { async_ops, blocking_ops, cached, signals, link: gen_read_cfg(rng) }))
+        let gen_call = |rng: &mut Rng| {
+            let k = rng.below(corpus_gen::N_IFACES as u64) as usize;
+            (k, rng.below(corpus_gen::n_methods(k) as u64) as usize, rng.next_u64() >> 12)
+        };
+        let gen_async = (0..rng.below(5)).map(|_| gen_call(rng)).collect();
+        let gen_blocking = (0..rng.below(4)).map(|_| gen_call(rng)).collect();
+        let with_props: Vec<usize> = (0..corpus_gen::N_IFACES).filter(|k| corpus_gen::n_props(*k) > 0).collect();
+        let with_sigs: Vec<usize> = (0..corpus_gen::N_IFACES).filter(|k| corpus_gen::n_signals(*k) > 0).collect();
+        let mut gen_props_async: Vec<(usize, usize, u64, bool)> = vec![];
+        let mut gen_props_blocking: Vec<(usize, usize, u64)> = vec![];
+        for _ in 0..rng.below(6) {
+            let k = *rng.pick(&with_props);
+            let pi = rng.below(corpus_gen::n_props(k) as u64) as usize;
+            let seed = rng.next_u64() >> 12;
+            let to_async = rng.chance(2, 3);
+            if to_async && !gen_props_blocking.iter().any(|e| (e.0, e.1) == (k, pi)) {
+                gen_props_async.push((k, pi, seed, rng.chance(1, 2)));
+            } else if !to_async && !gen_props_async.iter().any(|e| (e.0, e.1) == (k, pi)) {
+                gen_props_blocking.push((k, pi, seed));
+            }
+        }
+        let mut gen_signals: Vec<(usize, usize, u64, u8)> = vec![];
+        for _ in 0..rng.below(4) {
+            let k = *rng.pick(&with_sigs);
+            let si = rng.below(corpus_gen::n_signals(k) as u64) as usize;
+            if !gen_signals.iter().any(|e| (e.0, e.1) == (k, si)) {
+                gen_signals.push((k, si, rng.next_u64() >> 12, rng.below(2) as u8));
+            }
+        }
+        (sched, j(&P { async_ops, blocking_ops, cached, signals, link: gen_read_cfg(rng), gen_async, gen_blocking, gen_props_async, gen_props_blocking, gen_signals }))
     }
 
     fn shrink(&self, body: &Value) -> Vec<Value> {
@@ -177,6 +222,31 @@ impl Scenario for C33Scn {
             q.signals = v;
             out.push(j(&q));
         }
+        for v in drop_candidates(&p.gen_async) {
+            let mut q = p.clone();
+            q.gen_async = v;
+            out.push(j(&q));
+        }
+        for v in drop_candidates(&p.gen_blocking) {
+            let mut q = p.clone();
+            q.gen_blocking = v;
+            out.push(j(&q));
+        }
+        for v in drop_candidates(&p.gen_props_async) {
+            let mut q = p.clone();
+            q.gen_props_async = v;
+            out.push(j(&q));
+        }
+        for v in drop_candidates(&p.gen_props_blocking) {
+            let mut q = p.clone();
+            q.gen_props_blocking = v;
+            out.push(j(&q));
+        }
+        for v in drop_candidates(&p.gen_signals) {
+            let mut q = p.clone();
+            q.gen_signals = v;
+            out.push(j(&q));
+        }
         for f in [|q: &mut P| q.link = LinkCfg::default(), |q: &mut P| q.cached = false] {
             let mut q = p.clone();
             f(&mut q);
@@ -194,7 +264,8 @@ impl Scenario for C33Scn {
         let conns = shared(None::<(Connection, Connection)>);
         let (c2, l2, ww) = (conns.clone(), log.clone(), w.clone());
         let setup = w.spawn("setup", async move {
-            let a = zbus::connection::Builder::authenticated_socket(sa, crate::peers::GUID).unwrap().p2p().internal_executor(false).serve_at("/a", A::new(&l2, &ww, 0)).unwrap().build().await;
+            let a = zbus::connection::Builder::authenticated_socket(sa, crate::peers::GUID).unwrap().p2p().internal_executor(false).serve_at("/a", A::new(&l2, &ww, 0)).unwrap();
+            let a = corpus_gen::serve_all(a, &l2, &ww).unwrap().build().await;
             let b = zbus::connection::Builder::authenticated_socket(sb, crate::peers::GUID).unwrap().p2p().internal_executor(false).build().await;
             if let (Ok(a), Ok(b)) = (a, b) {
                 *c2.lock().unwrap() = Some((a, b));
@@ -210,9 +281,12 @@ impl Scenario for C33Scn {
         let got_async = shared(Vec::<(u32, String)>::new());
         let got_blocking = shared(Vec::<(u32, String)>::new());
         let failures = shared(Vec::<String>::new());
+        // (interface, member, canonical arguments) of every generated call / property write made
+        let sent_log = shared(Vec::<(String, String, String)>::new());
+        let gen_sig_seen = shared(0usize);
 
         // ---- async client ----
-        let (cl, ops, cached, mm, sub, ga, fl, ww) = (client.clone(), p.async_ops.clone(), p.cached, mismatches.clone(), subscribed.clone(), got_async.clone(), failures.clone(), w.clone());
+        let (cl, ops, cached, mm, sub, ga, fl, ww, gens, gprops, gsigs, sl, seen) = (client.clone(), p.async_ops.clone(), p.cached, mismatches.clone(), subscribed.clone(), got_async.clone(), failures.clone(), w.clone(), p.gen_async.clone(), p.gen_props_async.clone(), p.gen_signals.clone(), sent_log.clone(), gen_sig_seen.clone());
         let async_client = w.spawn("async-client", async move {
             let px = match SimAProxy::builder(&cl).cache_properties(if cached { zbus::proxy::CacheProperties::Lazily } else { zbus::proxy::CacheProperties::No }).build().await {
                 Ok(p) => p,
@@ -228,6 +302,27 @@ impl Scenario for C33Scn {
                     return;
                 }
             };
+            let mut waiters = vec![];
+            for (i, (k, si, seed, who)) in gsigs.iter().enumerate() {
+                if *who != 0 {
+                    continue;
+                }
+                match corpus_gen::subscribe_async(&cl, *k, *si).await {
+                    Ok(wait) => {
+                        let (mm, seen, k, si, seed) = (mm.clone(), seen.clone(), *k, *si, *seed);
+                        waiters.push(ww.spawn("async-gen-signal", async move {
+                            if let Some(e) = wait(seed).await {
+                                mm.lock().unwrap().push(format!("async gensig {i} I{k}.S{si}: {e}"));
+                            }
+                            *seen.lock().unwrap() += 1;
+                        }));
+                    }
+                    Err(e) => {
+                        fl.lock().unwrap().push(format!("async subscribe to generated signal I{k}.S{si}: {e}"));
+                        return;
+                    }
+                }
+            }
             sub.lock().unwrap().0 = true;
             let consumer = ww.spawn("async-signal-consumer", async move {
                 while let Some(t) = ticks.next().await {
@@ -304,11 +399,40 @@ impl Scenario for C33Scn {
                     mm.lock().unwrap().push(format!("async op {i} {op:?}: expected {want}, got {got}"));
                 }
             }
+            for (i, (k, m, seed)) in gens.iter().enumerate() {
+                let mut r = Rng::new(*seed);
+                match corpus_gen::drive_async(&cl, *k, *m, &mut r).await {
+                    Ok((sent, bad)) => {
+                        sl.lock().unwrap().push((format!("org.gen.I{k}"), format!("M{m}"), sent));
+                        if let Some(e) = bad {
+                            mm.lock().unwrap().push(format!("async gen {i} I{k}.M{m}: {e}"));
+                        }
+                    }
+                    Err(e) => mm.lock().unwrap().push(format!("async gen {i} I{k}.M{m}: proxy build failed: {e}")),
+                }
+            }
+            for (i, (k, pi, seed, cached)) in gprops.iter().enumerate() {
+                let mut r = Rng::new(*seed);
+                match corpus_gen::drive_prop_async(&cl, &ww, *k, *pi, *cached, &mut r).await {
+                    Ok((sent, bad)) => {
+                        if let Some(sent) = sent {
+                            sl.lock().unwrap().push((format!("org.gen.I{k}"), format!("SetP{pi}"), sent));
+                        }
+                        if let Some(e) = bad {
+                            mm.lock().unwrap().push(format!("async genprop {i} I{k}.P{pi}: {e}"));
+                        }
+                    }
+                    Err(e) => mm.lock().unwrap().push(format!("async genprop {i} I{k}.P{pi}: proxy build failed: {e}")),
+                }
+            }
+            for t in waiters {
+                t.await;
+            }
             consumer.await;
         });
 
         // ---- blocking client on a baton thread ----
-        let (cl, ops, mm, sub, gb, fl, nsig) = (client.clone(), p.blocking_ops.clone(), mismatches.clone(), subscribed.clone(), got_blocking.clone(), failures.clone(), p.signals.len());
+        let (cl, ops, mm, sub, gb, fl, nsig, gens, gprops, gsigs, sl, seen) = (client.clone(), p.blocking_ops.clone(), mismatches.clone(), subscribed.clone(), got_blocking.clone(), failures.clone(), p.signals.len(), p.gen_blocking.clone(), p.gen_props_blocking.clone(), p.gen_signals.clone(), sent_log.clone(), gen_sig_seen.clone());
         w.spawn_thread("blocking-client", move || {
             let bconn = zbus::blocking::Connection::from(cl);
             let px = match SimAProxyBlocking::builder(&bconn).cache_properties(zbus::proxy::CacheProperties::No).build() {
@@ -325,6 +449,19 @@ impl Scenario for C33Scn {
                     return;
                 }
             };
+            let mut waiters = vec![];
+            for (i, (k, si, seed, who)) in gsigs.iter().enumerate() {
+                if *who != 1 {
+                    continue;
+                }
+                match corpus_gen::subscribe_blocking(&bconn, *k, *si) {
+                    Ok(wait) => waiters.push((i, *k, *si, *seed, wait)),
+                    Err(e) => {
+                        fl.lock().unwrap().push(format!("blocking subscribe to generated signal I{k}.S{si}: {e}"));
+                        return;
+                    }
+                }
+            }
             sub.lock().unwrap().1 = true;
             for (i, op) in ops.iter().enumerate() {
                 let Some((_, _, want)) = expect_stateless(op) else { continue };
@@ -345,6 +482,32 @@ impl Scenario for C33Scn {
                     mm.lock().unwrap().push(format!("blocking op {i} {op:?}: expected {want}, got {got}"));
                 }
             }
+            for (i, (k, m, seed)) in gens.iter().enumerate() {
+                let mut r = Rng::new(*seed);
+                match corpus_gen::drive_blocking(&bconn, *k, *m, &mut r) {
+                    Ok((sent, bad)) => {
+                        sl.lock().unwrap().push((format!("org.gen.I{k}"), format!("M{m}"), sent));
+                        if let Some(e) = bad {
+                            mm.lock().unwrap().push(format!("blocking gen {i} I{k}.M{m}: {e}"));
+                        }
+                    }
+                    Err(e) => mm.lock().unwrap().push(format!("blocking gen {i} I{k}.M{m}: proxy build failed: {e}")),
+                }
+            }
+            for (i, (k, pi, seed)) in gprops.iter().enumerate() {
+                let mut r = Rng::new(*seed);
+                match corpus_gen::drive_prop_blocking(&bconn, *k, *pi, &mut r) {
+                    Ok((sent, bad)) => {
+                        if let Some(sent) = sent {
+                            sl.lock().unwrap().push((format!("org.gen.I{k}"), format!("SetP{pi}"), sent));
+                        }
+                        if let Some(e) = bad {
+                            mm.lock().unwrap().push(format!("blocking genprop {i} I{k}.P{pi}: {e}"));
+                        }
+                    }
+                    Err(e) => mm.lock().unwrap().push(format!("blocking genprop {i} I{k}.P{pi}: proxy build failed: {e}")),
+                }
+            }
             for _ in 0..nsig {
                 match ticks.next() {
                     Some(t) => {
@@ -354,6 +517,12 @@ impl Scenario for C33Scn {
                     }
                     None => break,
                 }
+            }
+            for (i, k, si, seed, wait) in waiters {
+                if let Some(e) = wait(seed) {
+                    mm.lock().unwrap().push(format!("blocking gensig {i} I{k}.S{si}: {e}"));
+                }
+                *seen.lock().unwrap() += 1;
             }
         });
 
@@ -366,7 +535,7 @@ impl Scenario for C33Scn {
             return Verdict::fail("hang", "subscription-never-completed", format!("signal subscription did not complete (async, blocking) = {subs:?}"));
         }
         // ---- server emits the signals ----
-        let (sv, sigs) = (server.clone(), p.signals.clone());
+        let (sv, sigs, gsigs) = (server.clone(), p.signals.clone(), p.gen_signals.clone());
         let emit_err = shared(None::<String>);
         let ee = emit_err.clone();
         let emitter = w.spawn("emitter", async move {
@@ -374,6 +543,9 @@ impl Scenario for C33Scn {
                 let iface = sv.object_server().interface::<_, A>("/a").await?;
                 for (n, what) in &sigs {
                     A::tick(iface.signal_emitter(), *n, what).await?;
+                }
+                for (k, si, seed, _) in &gsigs {
+                    corpus_gen::emit_signal(&sv, *k, *si, *seed).await?;
                 }
                 Ok(())
             }
@@ -398,7 +570,7 @@ impl Scenario for C33Scn {
 
         if let Some(m) = mm.first() {
             let who = if m.starts_with("async") { "async" } else { "blocking" };
-            let member = m.split_whitespace().nth(3).unwrap_or("").split('(').next().unwrap_or("").to_string();
+            let member = m.split_whitespace().nth(3).unwrap_or("").split(['(', ':']).next().unwrap_or("").to_string();
             return Verdict::fail("value", format!("{who}-{member}"), m.clone());
         }
         if unfinished > 0 {
@@ -421,6 +593,26 @@ impl Scenario for C33Scn {
             let missing: Vec<_> = want_log.iter().filter(|g| !got_log.contains(g)).collect();
             return Verdict::fail("args", "handler-saw-different-arguments", format!("handler log differs from the calls made: unexpected {extra:?}, missing {missing:?}"));
         }
+        // generated interfaces: every call made reached exactly its handler, once
+        let mut want_gen = sent_log.lock().unwrap().clone();
+        let mut got_gen: Vec<(String, String, String)> = log_v.iter().filter(|e| e.iface.starts_with("org.gen.")).map(|e| (e.iface.to_string(), e.member.to_string(), e.args.clone())).collect();
+        want_gen.sort();
+        got_gen.sort();
+        if want_gen != got_gen {
+            let extra: Vec<_> = got_gen.iter().filter(|g| !want_gen.contains(g)).collect();
+            let missing: Vec<_> = want_gen.iter().filter(|g| !got_gen.contains(g)).collect();
+            let disc = missing.first().or(extra.first()).map(|e| format!("{}.{}", e.0.trim_start_matches("org.gen."), e.1)).unwrap_or_default();
+            return Verdict::fail("args", format!("generated-handler-saw-different-arguments-{disc}"), format!("generated handlers' log differs from the calls made: unexpected {extra:?}, missing {missing:?}"));
+        }
+        let seen = *gen_sig_seen.lock().unwrap();
+        if seen != p.gen_signals.len() {
+            return Verdict::fail("signal", "generated-signal-not-received", format!("{} generated signals emitted, {seen} arrived at their subscribers", p.gen_signals.len()));
+        }
+        if !p.gen_async.is_empty() && !p.gen_blocking.is_empty() {
+            w.count("probe.generated_async_and_blocking_called");
+        }
+        w.count_n("probe.generated_property_roundtrips", (p.gen_props_async.len() + p.gen_props_blocking.len()) as u64);
+        w.count_n("probe.generated_signals_received", seen as u64);
         let both = p.async_ops.iter().any(|o| expect_stateless(o).is_some()) && !p.blocking_ops.is_empty();
         let wrote = p.async_ops.iter().any(|o| matches!(o, MOp::SetLabel(_) | MOp::SetLevel(_) | MOp::SetQuiet(_)));
         if both {
